@@ -83,7 +83,10 @@ Obs(ds, s) ==
                      declset |-> [k \in 1..Len(DeclSetIx(ds, s, i)) |-> D(ds, s)[DeclSetIx(ds, s, i)[k]].id],
                      pos |-> i - 1,
                      \* what else the declaration was given: an alias reports the aliasee it was declared with (one per type)
-                     init |-> IF D(ds, s)[i].kind = "alias" THEN D(ds, s)[i].t ELSE 0]],
+                     init |-> IF D(ds, s)[i].kind = "alias" THEN D(ds, s)[i].t ELSE 0,
+                     \* the clients of these scopes give every declaration specifiers of its own (a function of its identity) right
+                     \* after entering it; each declaration keeps its own, whatever is declared or set afterwards
+                     spec |-> IF D(ds, s)[i].kind \in HeteroKinds THEN (D(ds, s)[i].id % 7) + 1 ELSE 0]],
     lookup   |-> [n \in AllNames |-> IF Declared(ds, s, n) THEN 1 ELSE 0],
     select   |-> [n \in AllNames |-> [t \in AllTypes |-> Select(ds, s, n, t)]]]
 
